@@ -61,20 +61,27 @@ KeySeqs == UNION {[1..m -> JKeys] : m \in 0..JMaxLen}
 (* named: FALSE = the tables have no name (the right columns then get the default suffix "_right") *)
 (* form: how the conjunction of "eqle" is written - `p & q`, the list [p, q], pdt.all(p, q), and the same predicate with the  *)
 (* redundant middle conjunct l.k <= r.k as `p & m & q` / pdt.all(p, m, q) (every conjunct must take part on every backend)    *)
-JoinConfigs == {[verb |-> "joinrows", l |-> l, r |-> r, how |-> h, on |-> o, named |-> nm, form |-> fm] :
-                    l \in KeySeqs, r \in KeySeqs, h \in {"inner", "left", "full"}, o \in {"eq", "str", "le", "eqle", "eqleft", "eqright"}, nm \in BOOLEAN,
-                    fm \in {"and", "list", "all", "and3", "all3"}}
+JoinCfg(l, r, h, o, nm, fm) == [verb |-> "joinrows", l |-> l, r |-> r, how |-> h, on |-> o, named |-> nm, form |-> fm]
+(* (only the combinations JoinValid keeps are built: the full product exceeds TLC's set size limit for four keys) *)
+JoinConfigs ==
+    UNION {UNION {UNION {
+        {JoinCfg(l, r, h, o, TRUE, "and") : o \in {"eq", "str", "le", "eqle", "eqleft", "eqright", "eqlit", "rlit"}}
+        \cup {JoinCfg(l, r, h, "eqle", TRUE, fm) : fm \in {"list", "all", "and3", "all3"}}
+        \cup {JoinCfg(l, r, h, o, FALSE, "and") : o \in {"le", "eqle"}}
+        : h \in {"inner", "left", "full"}} : r \in KeySeqs} : l \in KeySeqs}
 JoinValid(c) == /\ (c.on \in {"le", "eqle", "eqleft", "eqright"} => c.how # "full")
-                /\ (c.on \in {"eqleft", "eqright"} => c.named)
+                /\ (c.on \in {"eqleft", "eqright", "eqlit", "rlit"} => c.named)
                 /\ (c.form # "and" => c.on = "eqle" /\ c.named)
                 /\ (~c.named => (c.on \in {"eqle", "le"} /\ Len(c.l) + Len(c.r) >= 3))      \* the unnamed variant only where it takes another path          \* a full join takes equality predicates only (documented ValueError otherwise)
 
 JoinExpected(c) ==      \* set of <<lid, rid>>, 0 = padded with nulls
-    LET match(i, j) == c.l[i] # 0 /\ c.r[j] # 0 /\ (CASE c.on = "le" -> c.l[i] <= c.r[j]
+    LET match(i, j) == (c.on = "rlit" \/ c.l[i] # 0) /\ c.r[j] # 0 /\ (CASE c.on = "le" -> c.l[i] <= c.r[j]
                                                           [] c.on = "eqle" -> c.l[i] = c.r[j] /\ i <= j        \* (l.k == r.k) & (lid <= rid)
                                                           \* an equality that reads one input only is a predicate like any other, not a join key
                                                           [] c.on = "eqleft" -> c.l[i] = c.r[j] /\ i = c.l[i]   \* [l.k == r.k, l.lid == l.k]
                                                           [] c.on = "eqright" -> c.l[i] = c.r[j] /\ j = c.r[j]  \* [l.k == r.k, r.rid == r.k]
+                                                          [] c.on = "eqlit" -> c.l[i] = c.r[j] /\ c.r[j] = 2   \* [pdt.lit(2) == r.k, l.k == r.k] (a constant first)
+                                                          [] c.on = "rlit" -> c.r[j] = 2                        \* r.k == 2 alone: every left row pairs with the right rows of key 2
                                                           [] OTHER -> c.l[i] = c.r[j])
         inner == {<<i, j>> : i \in DOMAIN c.l, j \in DOMAIN c.r} \cap {p \in (DOMAIN c.l) \X (DOMAIN c.r) : match(p[1], p[2])}
         lpad == {<<i, 0>> : i \in {i \in DOMAIN c.l : \A j \in DOMAIN c.r : ~match(i, j)}}
